@@ -122,6 +122,14 @@ def run_case(case, r):
     pl = f"payload={case['payload']}/ctor={case['ctor']}"
     conv = CONV[dim]
     cs = img.coordinatesystem
+    # the system is KEPT for the whole case while coordinate systems of other images (other
+    # dimension, other voxel sizes) are requested: nothing they do may reach this one
+    def distract():
+        for d_ in (1, 2, 3):
+            other = darsia.Image(np.zeros((2,) * d_), dimensions=[7.0, 3.0, 11.0][:d_], origin=[-1.0, 9.0, 4.0][:d_], space_dim=d_).coordinatesystem
+            other.coordinate(np.ones(d_, dtype=int))
+
+    distract()
     origin = np.array(img.origin, dtype=float, copy=True)  # private copy: must not alias the image's origin
     if case["origin"] != "default":
         want_o = np.array([3.0, -2.0, 5.0][:dim]) if case["origin"] == "near" else None
@@ -163,7 +171,9 @@ def run_case(case, r):
     for m in range(dim):
         want_disp[conv[m][0]] = dims[m]
     r.check(bool(np.all(np.abs(disp - want_disp) <= tolc + (0 if exact else 4 * np.finfo(float).eps * want_disp))), f"C01/opposite-corner/{tag}/{pl}", "|opposite - origin| equals the physical dimensions", got=disp, want=want_disp)
-    # (ii) unit steps
+    # (ii) unit steps (image properties used above request coordinate systems of the image itself;
+    # the other images come last again)
+    distract()
     for m in range(dim):
         e = np.zeros(dim, dtype=int)
         e[m] = 1
@@ -189,6 +199,7 @@ def run_case(case, r):
         r.count("default_origin_min_corner_is_zero" if bool(np.all(np.abs(mn) <= tolc)) else "default_origin_min_corner_nonzero")
 
     # (iv) every voxel incl. halo x offsets
+    distract()
     rng = [range(-halo, shape[m] + halo) for m in range(dim)]
     V = np.array(list(itertools.product(*rng)), dtype=int)
     offs1 = [0.125, 0.5, 0.875]
@@ -209,6 +220,13 @@ def run_case(case, r):
     Cl = cs.coordinate((V + 0.5).tolist())
     r.check(close(Cl, ref_coord(V + 0.5)), f"C01/coordinate-batch/{tag}", "a nested list of fractional voxel positions converts like the array", type=type(Cl).__name__)
     Cv = cs.coordinate(V)
+    # index arrays of every integer storage type (non-negative indices for the unsigned ones)
+    Vp = V[np.all(V >= 0, axis=1)]
+    for dt_ in ("uint8", "uint16", "uint32", "uint64", "int8", "int16", "int32"):
+        Vd = (Vp if dt_.startswith("u") else V).astype(dt_)
+        keepd = Vd.copy()
+        Cd = cs.coordinate(Vd)
+        r.check(close(Cd, ref_coord(keepd.astype(float))) and np.array_equal(Vd, keepd), f"C01/coordinate-batch/{tag}/index-dtype", "voxel indices stored as any integer type convert like int64 indices (and are left unchanged)", dtype=dt_)
     r.check(isinstance(Cv, darsia.CoordinateArray) and close(Cv, ref_coord(V)), f"C01/coordinate-batch/{tag}", "coordinate(batch of voxels incl. halo) follows the affine model, returned as CoordinateArray", type=type(Cv).__name__)
     for o in offsets:
         P = V + o
